@@ -440,14 +440,76 @@ inline Outcome runCliCase(const KV& c)
         o.fail("cli_sanitizer", "gmgpolar " + shown + ": sanitizer report: " + err.substr(0, 400));
         return o;
     }
-    if (code == 0) {
+    if (code == 0)
         o.cls("cli_ran");
-        return o;
+    else {
+        o.cls("cli_rejected_status_" + std::to_string(code));
+        if (err.empty()) {
+            o.fail("cli_silent_rejection", "gmgpolar " + shown + ": exit status " + std::to_string(code) + " without a diagnostic on stderr");
+            return o;
+        }
     }
-    o.cls("cli_rejected_status_" + std::to_string(code));
-    if (err.empty()) {
-        o.fail("cli_silent_rejection", "gmgpolar " + shown + ": exit status " + std::to_string(code) + " without a diagnostic on stderr");
-        return o;
+    // "no use of uninitialised data": ASan/UBSan do not see reads of uninitialised memory, and the two-pattern differential of
+    // the API part cannot reach the parser's locals. The same command line is therefore run once more, uninstrumented (the
+    // project's own flavour), under valgrind's memcheck, which reports every branch or system call that depends on an
+    // uninitialised value (exit code 99).
+    if (c.getI("memcheck", 1)) {
+        const char* rroot       = getenv("VERIF_BUILD_REL");
+        const std::string exeR  = std::string(rroot ? rroot : "/verif/build/rel") + "/gmgpolar_cli";
+        const std::string vlog  = tmpBase() + "_vg.txt";
+        const std::string scr2  = tmpBase() + "_cd2";
+        mkdir(scr2.c_str(), 0700);
+        fflush(nullptr);
+        pid_t p2 = fork();
+        if (p2 == 0) {
+            int fd  = open(vlog.c_str(), O_WRONLY | O_CREAT | O_TRUNC, 0600);
+            int nul = open("/dev/null", O_WRONLY);
+            if (fd >= 0)
+                dup2(fd, 2);
+            if (nul >= 0)
+                dup2(nul, 1);
+            std::vector<char*> av;
+            static const char* vg[] = {"valgrind", "-q", "--error-exitcode=99", "--undef-value-errors=yes", "--track-origins=no", "--leak-check=no"};
+            for (const char* a : vg)
+                av.push_back(const_cast<char*>(a));
+            av.push_back(const_cast<char*>(exeR.c_str()));
+            for (auto& a : args)
+                av.push_back(const_cast<char*>(a.c_str()));
+            av.push_back(nullptr);
+            if (chdir(scr2.c_str()) != 0)
+                _exit(126);
+            setenv("OMP_NUM_THREADS", "1", 1);
+            alarm(300);
+            execvp("valgrind", av.data());
+            _exit(127);
+        }
+        int st2 = 0;
+        waitpid(p2, &st2, 0);
+        for (const char* f : {"output_finest_grid.vtu", "output_coarsest_grid.vtu", "output_solution.vtu", "output_error.vtu", "_r.txt", "_t.txt",
+                              "radii_out.txt", "angles_out.txt"})
+            std::remove((scr2 + "/" + f).c_str());
+        rmdir(scr2.c_str());
+        std::string vout;
+        {
+            std::ifstream f(vlog);
+            vout.assign((std::istreambuf_iterator<char>(f)), std::istreambuf_iterator<char>());
+            std::remove(vlog.c_str());
+        }
+        if (WIFEXITED(st2) && WEXITSTATUS(st2) == 127) {
+            o.fail("harness_exec", "could not execute valgrind");
+            return o;
+        }
+        if (WIFSIGNALED(st2) && WTERMSIG(st2) == SIGALRM) {
+            o.cls("cli_memcheck_timeout");
+            return o;
+        }
+        o.cls("cli_memcheck_run");
+        const size_t at = vout.find("uninitialised");
+        if ((WIFEXITED(st2) && WEXITSTATUS(st2) == 99) || at != std::string::npos) {
+            size_t b = vout.rfind("==", at == std::string::npos ? 0 : at);
+            o.fail("cli_uninitialised_value", "gmgpolar " + shown + ": valgrind memcheck: " + vout.substr(b == std::string::npos ? 0 : b, 500));
+            return o;
+        }
     }
     return o;
 }
@@ -559,8 +621,15 @@ inline KV genOptionsCase()
         const int nopt = rint(0, 7);
         for (int k = 0; k < nopt; k++) {
             const Opt& op = opts[rint(0, (int)opts.size() - 1)];
-            const int kind = rweighted({10, 3, 1, 1}); // valid value, invalid value, missing value, unknown option
-            if (kind == 0)
+            const int kind = rweighted({10, 3, 1, 1, 3}); // valid value, invalid value, missing value, unknown option, odd number
+            if (kind == 4) {
+                // lexically unusual numbers for any option: out of the range of int / double, trailing characters, signs,
+                // hexadecimal, fractions for integer options (each is either rejected or accepted as some definite value)
+                argv += std::string("\x1f") + op.name + "\x1f" +
+                        (rbool() ? rpick({"99999999999", "-3000000000", "1e400", "1e-400", "-1e400", "2147483648", "1e400", "1e-400"})
+                                 : rpick({"7x", "1e", "+3", " 3", "0x10", "3.", ".5", "1e+2", "3.7", "1e-5x", "nan", "inf", "-0", "00003"}));
+            }
+            else if (kind == 0)
                 argv += std::string("\x1f") + op.name + "\x1f" + op.good[rint(0, (int)op.good.size() - 1)];
             else if (kind == 1)
                 argv += std::string("\x1f") + op.name + "\x1f" + op.bad[rint(0, (int)op.bad.size() - 1)];
